@@ -290,7 +290,7 @@ def episode(ctx, case, nsteps=0):
     edge_of_buffer = {}
     first_bits = {}       # value-keyed routes: bits of the first construction of that value in this episode
     rkind, bits, rcls = case['root']
-    tok = '0b' + bits
+    tok = case.get('tok', '0b' + bits)
     with util.options(lsb0=bool(case.get('lsb0'))):     # independence is not a matter of bit numbering: same oracle in both modes
         def reg(o, kind, route, edge_src=None):
             e = {'obj': o, 'kind': kind, 'route': route, 'exp': None, 'edge': None,
@@ -572,6 +572,10 @@ def run(ctx):
         rk = ctx.rng.choice(['str', 'str', 'bin', 'bytearray', 'memoryview', 'bitarray', 'array', 'BytesIO'])
         bits = rb(ctx.rng, ctx.rng.choice([8, 16, 24, 64]))
         case = {'root': [rk, bits, ctx.rng.choice(TC)], 'steps': [], 'lsb0': i % 4 == 3}
+        if rk == 'str' and ctx.rng.random() < 0.12:
+            # the empty bitstring in its token-string spellings (they all parse to nothing)
+            case['root'][1] = ''
+            case['tok'] = ctx.rng.choice(['', ' ', ',', ' , ', '\t', ', ,'])
         if rk not in ('str', 'bin'):
             case['ext_route'] = ctx.rng.choice(list(EXT_ROUTES[rk]))
         ns = ctx.rng.randint(10, 20) if ctx.quick else ctx.rng.randint(10, 40)
